@@ -7,7 +7,9 @@ C12 - island detection and status propagation match the network graph.
    placements x bus-off sets is enumerated by TLC (Scen_Connectivity), built as a real System, and the
    recorded results of connectivity(), of the power flow with isolated buses and of ConnMan propagation are
    validated by TLC against the graph-theoretic definitions (Trace_Connectivity).  5-6 bus graphs: seeded sample.
-3. During simulation: islands after each switching event are validated from C06's traces in the thorough tier.
+3. During simulation (ieee14_full): lines are taken out and put back by Toggle (model and group name) and Alter events, two at
+   one instant included; the run is paused after each event and the library's islands are validated by TLC against the graph
+   of the devices' statuses at that moment.  Bus statuses re-written with their present value before initialisation.
 """
 import json
 import os
@@ -65,7 +67,7 @@ def run(tier):
             scs.append(dict(sid="g%d[%s|slack=%s|off=%s]" % (n, gid(g), ",".join("%d%s" % (x["bus"], "" if x["u"] else "x") for x in s),
                                                               ".".join(map(str, off)) or "-"),
                             n=n, br=g["br"], slacks=s, off=off, shuntsw=[n] if (k + j) % 2 == 0 else [],
-                            via="alter" if (k + j) % 3 else "set", idx_kind="int" if (k + j) % 4 else "str",
+                            via="alter" if (k + j) % 3 else "set", idx_kind="int" if (k + j) % 4 else "str", rewrite=bool((k + j) % 2),
                             parallel=("on" if (k + j) % 5 == 0 else ("off" if (k + j) % 5 == 1 else None))))
     # many islands with interleaved bus numbering: TLC-enumerated set partitions of 6 / 7 buses (>= 3 blocks)
     parts = [(6, p) for p in sp["parts6"]] + [(7, p) for p in sp["parts7"]]
@@ -108,6 +110,22 @@ def run(tier):
         seqs.append(dict(kind="seq", sid="seq[ieee14|%s]" % ">".join(".".join(map(str, s)) or "-" for s in steps),
                          case="ieee14/ieee14.json", steps=steps, n=0, br=[], slacks=[], off=[]))
     scs += seqs
+    # islands after each switching event during a simulation (ieee14_full: line positions as above), by every kind of timed event
+    kinds = ["toggle", "alter", "toggle_group"]
+    plans = [[(1.0, 12, 0), (1.0, 15, 0), (1.3, 12, 1)],            # bus 14 cut off by two events at one instant, one line back
+             [(0.5, 8, 0), (0.8, 14, 0), (1.2, 16, 0)],              # bus 12 cut off in two steps, then bus 8 (a generator bus)
+             [(0.4, 9, 0), (0.4, 11, 0), (0.9, 9, 1), (0.9, 11, 1)],
+             [(0.6, 2, 0), (0.6, 5, 0), (1.0, 12, 0), (1.0, 15, 0), (1.4, 2, 1)]]
+    for k in range(6 if quick else 36):
+        plan = plans[k % len(plans)]
+        kd = kinds[k % 3] if k < 9 else rnd.choice(kinds)
+        evs = []
+        for (t, ln, val) in plan:
+            kk = kd if k % 2 == 0 else rnd.choice(kinds)
+            # a Toggle flips the status; an Alter sets it
+            evs.append((t, kk, ln, val))
+        scs.append(dict(kind="tds", sid="tds[ieee14_full|%s]" % ",".join("%s@%g:%d=%d" % (kk[0] + kk[-1], t, ln, val) for t, kk, ln, val in evs),
+                        case="ieee14/ieee14_full.xlsx", events=evs, n=0, br=[], slacks=[], off=[]))
     for i, sc in enumerate(scs):
         sc["tid"] = i + 1
     res = run_tasks("vh.checks.c12:task", scs, nproc=NCPU, timeout=600)
@@ -133,7 +151,10 @@ def run(tier):
             continue
         rep.traces += 1
         evs = x["result"]["ev"]
-        if any(e["e"] == "conn" and (len(e["island_sets"]) > 1 or e["islanded"]) for e in evs) or sc["off"] or sc.get("kind") == "seq":
+        for e in evs:
+            if e["e"] == "tds_raised":
+                rep.note("%s: simulation raised %s" % (sc["sid"], e["text"]))
+        if any(e["e"] == "conn" and (len(e["island_sets"]) > 1 or e["islanded"]) for e in evs) or sc["off"] or sc.get("kind") in ("seq", "tds"):
             rep.nontriv(sc["sid"])
         for e in evs:
             if e["e"] == "conn_raised":
@@ -156,6 +177,8 @@ def run(tier):
 
 def task(sc):
     from .. import conndrv
+    if sc.get("kind") == "tds":
+        return conndrv.run_tds_switching(sc)
     return conndrv.run_sequence(sc) if sc.get("kind") == "seq" else conndrv.run_graph(sc)
 
 
